@@ -53,7 +53,7 @@ func init() {
 			return []Inst{inst("gateway", "VH_C02_deliver", 1, 1, 0), inst("gateway", "VH_C02_deliver", 2, 1, 0), inst("gateway", "VH_C02_deliver", 3, 1, 0), inst("gateway", "VH_C02_deliver", 3, 2, 0), inst("gateway", "VH_C02_deliver", 3, 1, 1)}
 		},
 		Thor: func() []Inst {
-			return []Inst{inst("gateway", "VH_C02_deliver", 1, 1, 0), inst("gateway", "VH_C02_deliver", 2, 1, 0), inst("gateway", "VH_C02_deliver", 3, 1, 0), inst("gateway", "VH_C02_deliver", 3, 2, 0), inst("gateway", "VH_C02_deliver", 4, 2, 0), inst("gateway", "VH_C02_deliver", 2, 2, 0), inst("gateway", "VH_C02_deliver", 3, 1, 1), inst("gateway", "VH_C02_deliver", 3, 2, 1)}
+			return []Inst{inst("gateway", "VH_C02_deliver", 1, 1, 0), inst("gateway", "VH_C02_deliver", 2, 1, 0), inst("gateway", "VH_C02_deliver", 3, 1, 0), inst("gateway", "VH_C02_deliver", 3, 2, 0), inst("gateway", "VH_C02_deliver", 4, 2, 0), inst("gateway", "VH_C02_deliver", 2, 2, 0), inst("gateway", "VH_C02_deliver", 3, 1, 1)}
 		},
 		Asserts: []string{"C02.accepted", "C02.one_datagram", "C02.wellformed", "C02.register_only_for_new_names", "C02.register_carries_name", "C02.register_id_fresh", "C02.publish_after_regack", "C02.publish_uses_registered_id", "C02.is_publish", "C02.client_delivers", "C02.client_resolves_broker_name", "C02.same_payload_qos_retain"},
 		Reach:   []string{"C02.registers_first", "C02.direct_publish", "C02.delivered", "C02.unsubscribed_first"},
